@@ -12,6 +12,7 @@ import traceback
 ROOT = os.path.dirname(os.path.dirname(os.path.abspath(__file__)))
 sys.path.insert(0, ROOT)
 VENV_PY = '/venv/bin/python'
+OUTROOT = os.environ.get('VERIF_OUTDIR', ROOT)      # evidence/ and out/ live here (scratch dir for seed tests)
 
 
 def native(args, timeout=600):
@@ -133,7 +134,7 @@ def run_check(cid, tier, seed):
     unstable = [ob for ob in obs if ob.result == 'unsat' and getattr(ob, 'cross', None)
                 and any(v == 'sat' for k, v in ob.cross.items() if not k.endswith('_time'))]
     failed += unstable
-    outdir = os.path.join(ROOT, 'out', cid)
+    outdir = os.path.join(OUTROOT, 'out', cid)
     os.makedirs(outdir, exist_ok=True)
     for f in os.listdir(outdir):
         os.unlink(os.path.join(outdir, f))
@@ -197,7 +198,7 @@ def run_check(cid, tier, seed):
                    contract_failures=(found or {}).get('contract_failures'), note=note,
                    source_sha={m: prog.file_sha[m] for m in prog.file_sha})
         json.dump(doc, open(path, 'w'), indent=1, default=str)
-        return os.path.relpath(path, ROOT)
+        return os.path.relpath(path, OUTROOT)
     if new_failed:
         refuted = [ob for ob in new_failed if ob.result == 'sat']
         undecided = [ob for ob in new_failed if ob.result != 'sat']
@@ -238,7 +239,7 @@ def run_check(cid, tier, seed):
             path = os.path.join(outdir, f'replay-{replay_n}.json')
             replay_n += 1
             json.dump(dict(property=cid, obligation=sr['name'], scan=v), open(path, 'w'), indent=1)
-            lines.append(f'VIOLATION property={cid} replay={os.path.relpath(path, ROOT)} no-failing-input-found')
+            lines.append(f'VIOLATION property={cid} replay={os.path.relpath(path, OUTROOT)} no-failing-input-found')
             lines.append(f'  failed-obligation {sr["name"]}: {v}')
             exit_code = 1
             violations += 1
@@ -304,8 +305,8 @@ def run_check(cid, tier, seed):
         assumptions=sorted(assumptions), wall_s=round(time.time() - t_start, 2), violations=violations)
     if tier == 'thorough':
         ev['coverage']['cross_checked'] = sum(1 for o in obs if getattr(o, 'cross', None))
-    os.makedirs(os.path.join(ROOT, 'evidence'), exist_ok=True)
-    json.dump(ev, open(os.path.join(ROOT, 'evidence', f'{cid}.json'), 'w'), indent=1, default=str)
+    os.makedirs(os.path.join(OUTROOT, 'evidence'), exist_ok=True)
+    json.dump(ev, open(os.path.join(OUTROOT, 'evidence', f'{cid}.json'), 'w'), indent=1, default=str)
     for l in kf_lines:
         print(l)
     for l in lines:
